@@ -20,19 +20,22 @@
           (IdMap14.im_step chk=false is the code as it is; T14_getbyid_detached_refuted).
 
     PARTIAL items (said here once, and in checks/meta/C14.json):
-    - the theorems about NodeIterator stepping, the tag-name list and the removal rule of ranges take the pointer
-      walks of the code (nextNode(node,true), previousNode(node), nextMatchingElementAfter, isAncestorOf) as
-      hypotheses "one step in the document order of the root's subtree" / "membership in the subtree".  They are
-      decidable: Cert14.v gives executable checks, the *_certified theorems hold outright wherever a check is true,
-      and the extracted checks are evaluated on the states of the correspondence's histories (0 failures required);
+    - the iterator / tag-list / range-removal theorems are proved for every WELL-FORMED forest (unique node ids,
+      [wf_forest]) -- the pointer walks of the code are proved to be document-order successor / predecessor / subtree
+      membership (Tree14.v, Nav14*.v) -- and, for the iterator, for a current node inside the root's subtree; that
+      these two facts hold in every reachable state (preservation of [wf_forest] by the tree mutations; correctness of
+      the removeNode fix-up against [sp_it_remove]) is not proved: the extracted certificates of Cert14.v check them on
+      the states of the correspondence's histories (0 failures required).  The older *_partial / *_certified theorems
+      are kept: they state the same with the navigation facts as explicit hypotheses / certificates;
     - T14_range_valid_partial: validity is proved for the operations that do not restructure the tree (boundary
       setters, collapse, character-data edits inside one container); for node insertion/removal/splitText it is
       checked on every state of the correspondence by [range_ok] (extracted) and on the library's DOM directly;
-    - T14_walker_partial: the accept function (whatToShow skip, reject/skip verdicts) is proved equal to the
-      specification's outside the F27 class; the seven moves are compared with [sp_w_target_at] by correspondence only;
-    - the iterator's removal fix-up (removeNode) is compared with [sp_it_remove] by correspondence only. *)
-From Coq Require Import List NArith Arith Bool Lia.
-From XV Require Import C14.Spec14 C14.Hist14 C14.Model14 C14.Cert14 C14.IdMap14 C14.Proofs14a C14.Proofs14b C14.Proofs14c C14.Proofs14d C14.Proofs14e.
+    - TreeWalker: parentNode, firstChild and lastChild are proved equal to the specification (guarded by F27 for the
+      code as it is); nextSibling, previousSibling, nextNode, previousNode are compared with [sp_w_target_at] by
+      correspondence only (plus T14_walker_sample, a finite sweep);
+    - DOMNodeIDMap is proved in full (T14_idmap_full). *)
+From Coq Require Import List NArith ZArith Arith Bool Lia.
+From XV Require Import C14.Spec14 C14.Hist14 C14.Model14 C14.Cert14 C14.IdMap14 C14.Proofs14a C14.Proofs14b C14.Proofs14c C14.Proofs14d C14.Proofs14e C14.Tree14 C14.Nav14 C14.Nav14b C14.Nav14c C14.Nav14d C14.Proofs14f C14.Proofs14g C14.Walk14 C14.Walk14b C14.Walk14c.
 Import ListNotations.
 
 Definition fx_as_is := {| fx_iter_fresh := false; fx_ins_text := false; fx_wprev := false; fx_wshow := false; fx_split := false |}.
@@ -71,6 +74,35 @@ Theorem T14_iter_position_prev_partial : forall tab f it0,
   (fst (mi_prev tab f (mi_set it0 cur fwd)), abs_it (snd (mi_prev tab f (mi_set it0 cur fwd)))).
 Proof. intros tab f it0 root order. exact (prev_is_spec tab f it0). Qed.
 Print Assumptions T14_iter_position_prev_partial.
+
+(** T14_iter_position WITHOUT navigation hypotheses: on every well-formed forest (node ids unique -- [wf_forest]) the
+    pointer walks nextNode(node,true) / previousNode(node) of the code are the successor / predecessor in the document
+    order of the root's subtree (Tree14.v, Nav14.v, Nav14c.v), hence for every iterator whose root is in the forest and
+    whose current node lies in the root's subtree, nextNode() and previousNode() are the specification's moves *)
+Theorem T14_iter_position_next : forall tab f it0 Rt, wf_forest f -> find_node f (mi_root it0) = Some Rt ->
+  forall cur fwd, (forall c, cur = Some c -> In c (ids (it_order f (mi_root it0)))) ->
+  sp_it_next tab f (abs_it (mi_set it0 cur fwd)) =
+  (fst (mi_next tab f (mi_set it0 cur fwd)), abs_it (snd (mi_next tab f (mi_set it0 cur fwd)))).
+Proof. intros tab f it0 Rt Hwf. exact (iter_next_unconditional f Hwf tab it0 Rt). Qed.
+Print Assumptions T14_iter_position_next.
+
+Theorem T14_iter_position_prev : forall tab f it0 Rt, wf_forest f -> find_node f (mi_root it0) = Some Rt ->
+  forall cur fwd, (forall c, cur = Some c -> In c (ids (it_order f (mi_root it0)))) ->
+  sp_it_prev tab f (abs_it (mi_set it0 cur fwd)) =
+  (fst (mi_prev tab f (mi_set it0 cur fwd)), abs_it (snd (mi_prev tab f (mi_set it0 cur fwd)))).
+Proof. intros tab f it0 Rt Hwf. exact (iter_prev_unconditional f Hwf tab it0 Rt). Qed.
+Print Assumptions T14_iter_position_prev.
+
+(** the walks themselves *)
+Theorem T14_nav_successor : forall f R Rt, wf_forest f -> find_node f R = Some Rt ->
+  forall k c, nth_error (ids (it_order f R)) k = Some c ->
+  mi_next_raw f R (Some c) true = nth_error (ids (it_order f R)) (S k).
+Proof. intros f R Rt Hwf. exact (iter_next_nav f Hwf R Rt). Qed.
+Print Assumptions T14_nav_successor.
+Theorem T14_nav_predecessor : forall f R Rt, wf_forest f -> find_node f R = Some Rt ->
+  forall k c, nth_error (ids (it_order f R)) (S k) = Some c -> mi_prev_raw f R c = nth_error (ids (it_order f R)) k.
+Proof. intros f R Rt Hwf. exact (iter_prev_nav f Hwf R Rt). Qed.
+Print Assumptions T14_nav_predecessor.
 
 (** what the specification's step means: the node returned by nextNode is accepted, lies behind the gap, and no
     accepted node lies between the gap and it (it is the neighbour in the filtered order) *)
@@ -129,6 +161,59 @@ Proof.
 Qed.
 Print Assumptions T14_walker_accept_guarded.
 
+(** T14_walker, parentNode(): on every well-formed forest the code's climb is the specification's "closest visible
+    ancestor not above the root" -- for the code as it is and as repaired alike (F27 turns SKIP into REJECT, never into
+    ACCEPT, and only ACCEPT matters for parentNode) *)
+Theorem T14_walker_parent : forall f fx tab w X, wf_forest f -> find_node f (mw_cur w) = Some X ->
+  mw_target fx tab f w WParent = sp_w_target_at tab f (abs_w w) (mw_root w) WParent.
+Proof. intros f fx tab w X Hwf HX. exact (walker_parent_is_spec f Hwf (mw_root w) fx tab w X eq_refl HX). Qed.
+Print Assumptions T14_walker_parent.
+
+(** T14_walker, firstChild(): descend into skipped nodes, climb out of them, prune rejected ones = the head of the
+    specification's visible-children list; for a current node that is the root or is not skipped, inside the root's
+    subtree.  Repaired code: unconditional.  Code as it is (F27 open): on forests free of the F27 class. *)
+Theorem T14_walker_first : forall f fx tab w S, wf_forest f -> fx_wshow fx = true ->
+  find_node f (mw_cur w) = Some S ->
+  is_skip (view_verdict tab (mw_what w) (mw_usef w) S) && negb (tid S =? mw_root w) = false ->
+  ~ In (mw_root w) (ids (dnodes (tkids S))) ->
+  mw_target fx tab f w WFirst = sp_w_target_at tab f (abs_w w) (mw_root w) WFirst.
+Proof.
+  intros f fx tab w S Hwf Hfx. apply walker_first_is_spec; [exact Hwf|]. intros s Hs. exact (accept_repaired f fx tab w s Hwf Hfx Hs).
+Qed.
+Print Assumptions T14_walker_first.
+
+Theorem T14_walker_first_guarded : forall f tab w S, wf_forest f ->
+  (forall s, In s (fnodes f) -> shown (mw_what w) (tkind s) = true \/ mw_usef w = false \/ filter_verdict tab s <> VReject) ->
+  find_node f (mw_cur w) = Some S ->
+  is_skip (view_verdict tab (mw_what w) (mw_usef w) S) && negb (tid S =? mw_root w) = false ->
+  ~ In (mw_root w) (ids (dnodes (tkids S))) ->
+  mw_target fx_current tab f w WFirst = sp_w_target_at tab f (abs_w w) (mw_root w) WFirst.
+Proof.
+  intros f tab w S Hwf G. apply walker_first_is_spec; [exact Hwf|]. intros s Hs. exact (accept_guarded f fx_current tab w s Hwf Hs (G s Hs)).
+Qed.
+Print Assumptions T14_walker_first_guarded.
+
+(** T14_walker, lastChild(): the mirror image *)
+Theorem T14_walker_last : forall f fx tab w S, wf_forest f -> fx_wshow fx = true ->
+  find_node f (mw_cur w) = Some S ->
+  is_skip (view_verdict tab (mw_what w) (mw_usef w) S) && negb (tid S =? mw_root w) = false ->
+  ~ In (mw_root w) (ids (dnodes (tkids S))) ->
+  mw_target fx tab f w WLast = sp_w_target_at tab f (abs_w w) (mw_root w) WLast.
+Proof.
+  intros f fx tab w S Hwf Hfx. apply walker_last_is_spec; [exact Hwf|]. intros s Hs. exact (accept_repaired f fx tab w s Hwf Hfx Hs).
+Qed.
+Print Assumptions T14_walker_last.
+Theorem T14_walker_last_guarded : forall f tab w S, wf_forest f ->
+  (forall s, In s (fnodes f) -> shown (mw_what w) (tkind s) = true \/ mw_usef w = false \/ filter_verdict tab s <> VReject) ->
+  find_node f (mw_cur w) = Some S ->
+  is_skip (view_verdict tab (mw_what w) (mw_usef w) S) && negb (tid S =? mw_root w) = false ->
+  ~ In (mw_root w) (ids (dnodes (tkids S))) ->
+  mw_target fx_current tab f w WLast = sp_w_target_at tab f (abs_w w) (mw_root w) WLast.
+Proof.
+  intros f tab w S Hwf G. apply walker_last_is_spec; [exact Hwf|]. intros s Hs. exact (accept_guarded f fx_current tab w s Hwf Hs (G s Hs)).
+Qed.
+Print Assumptions T14_walker_last_guarded.
+
 (** DEFECT F26 (code as it is): previousNode skips the deepest descendants *)
 Theorem T14_walker_prev_refuted :
   exists h, fst (m_run fx_as_is tab_all h) <> sp_run tab_all h /\ fst (m_run fx_repaired tab_all h) = sp_run tab_all h.
@@ -175,6 +260,16 @@ Theorem T14_deeplist_length_partial : forall f root name,
   cache_ok f root name changes (snd (md_length f changes l)).
 Proof. intros f root name Hn Hf. exact (length_correct f root name Hn Hf). Qed.
 Print Assumptions T14_deeplist_length_partial.
+
+(** T14_deeplist WITHOUT navigation hypotheses: on every well-formed forest, for every list whose root is in the forest *)
+Theorem T14_deeplist : forall f root name Rt, wf_forest f -> find_node f root = Some Rt ->
+  forall changes l, cache_ok f root name changes l ->
+  (forall i, fst (md_cache_item f changes l (S i)) = nth_error (sp_tag_list f root name) i /\
+             cache_ok f root name changes (snd (md_cache_item f changes l (S i)))) /\
+  fst (md_length f changes l) = length (sp_tag_list f root name) /\
+  cache_ok f root name changes (snd (md_length f changes l)).
+Proof. intros f root name Rt Hwf. exact (deeplist_unconditional f Hwf root name Rt). Qed.
+Print Assumptions T14_deeplist.
 
 (** every mutation bumps the counter, hence every cache is stale -- and therefore [cache_ok] -- for ANY new tree;
     a fresh list (fChanges = 0) is [cache_ok] because the counter of a document with a root element is >= 1 *)
@@ -238,6 +333,18 @@ Theorem T14_range_moves_split_guarded : forall f x nw off p i r, m_is_cd f x = t
   to_range (mr_upd_split fx_current f x nw off r) = r_map (bp_split_parent p i) (r_map (bp_split x nw off) (to_range r)).
 Proof. intros. apply split_is_spec_guarded; [reflexivity|assumption..]. Qed.
 Print Assumptions T14_range_moves_split_guarded.
+
+(** isAncestorOf decides subtree membership on well-formed forests; hence the removal rule without hypotheses *)
+Theorem T14_is_ancestor : forall f x X c, wf_forest f -> find_node f x = Some X -> In c (ids (fnodes f)) ->
+  m_is_anc f (m_fuel f) x (Some c) = memb c (sub_ids f x).
+Proof. intros f x X c Hwf. exact (is_anc_wf f Hwf x X c). Qed.
+Print Assumptions T14_is_ancestor.
+
+Theorem T14_range_moves_remove_node : forall f x X p r, wf_forest f -> find_node f x = Some X -> m_parent f x = Some p ->
+  In (mr_sc r) (ids (fnodes f)) -> In (mr_ec r) (ids (fnodes f)) ->
+  to_range (mr_upd_del_node f x r) = r_map (bp_del_node p (m_index_of f x p) (sub_ids f x)) (to_range r).
+Proof. intros f x X p r Hwf. exact (del_node_unconditional f Hwf x X p r). Qed.
+Print Assumptions T14_range_moves_remove_node.
 
 Theorem T14_range_moves_remove_node_partial : forall f x p r sub,
   m_parent f x = Some p ->
@@ -337,6 +444,35 @@ Theorem T14_idmap_remove_gone : forall val m e m', wf val m -> unique_entries m 
   im_remove val m e = Done m' -> ~ present m' e.
 Proof. exact remove_gone. Qed.
 Print Assumptions T14_idmap_remove_gone.
+
+(** T14_idmap IN FULL (Proofs14f/g): for every valid sequence of add / remove (an attribute is registered only while
+    it is not registered) from the empty table, growTable included: unless gPrimes is exhausted (the documented
+    NodeIDMap_GrowErr) the run finishes -- no probe loop runs forever: the table sizes are prime (verified trial
+    division over the generated table), so the probe sequence ((j+1) * h0) mod size visits every slot, and the
+    bookkeeping invariant non-empty slots <= fNumEntries <= fMaxEntries < size keeps one slot empty; growTable never
+    nests -- and then the table holds exactly the attributes of the specification set, each exactly once, find returns
+    the element for every registered value (pairwise different values) and None for every other value. *)
+Theorem T14_idmap_full : forall val fu l, valid_use [] l ->
+  t_run val (S (S fu)) im_new l = GrowErr \/
+  exists m', t_run val (S (S fu)) im_new l = Done m' /\
+    NoDup (attrs_of (im_tab m')) /\ (forall e, In e (attrs_of (im_tab m')) <-> In e (spec_set [] l)) /\
+    (forall e, In e (spec_set [] l) -> (forall e', In e' (spec_set [] l) -> val e' = val e -> e' = e) ->
+               im_find val m' (val e) = Done (Some e)) /\
+    (forall v, (forall e, In e (spec_set [] l) -> val e <> v) -> im_find val m' v = Done None).
+Proof. exact idmap_full. Qed.
+Print Assumptions T14_idmap_full.
+
+(** one add (with or without growTable): invariants kept, registered exactly once more, never loops *)
+Theorem T14_idmap_add_full : forall val fu m e, book m -> wf val m -> ~ In e (attrs_of (im_tab m)) ->
+  im_add val (S (S fu)) m e = GrowErr \/
+  exists m', im_add val (S (S fu)) m e = Done m' /\ book m' /\ wf val m' /\
+             (forall x, In x (attrs_of (im_tab m')) <-> x = e \/ In x (attrs_of (im_tab m))).
+Proof. exact add_book. Qed.
+Print Assumptions T14_idmap_add_full.
+
+Theorem T14_idmap_sizes_prime : forall k s mx, size_at k = Some (s, mx) -> Znumtheory.prime (Z.of_nat s).
+Proof. exact gen_sizes_prime. Qed.
+Print Assumptions T14_idmap_sizes_prime.
 
 (** KNOWN FINDING F29: getElementById returns an element that is no longer in the document tree *)
 Theorem T14_getbyid_detached_refuted :
